@@ -109,7 +109,9 @@ func genNode(r *Rng, depth int, tier string, ext bool) *Node {
 }
 
 func genExt(r *Rng) *Node {
-	switch r.Intn(6) {
+	switch r.Intn(9) {
+	case 6, 7, 8: // EventTime values inside records: the registered extension, handed out by msgp's registry
+		return nExt(0, etPayload(r))
 	case 0: // msgp time
 		return nExt(5, r.Bytes(12))
 	case 1: // complex64 / complex128
@@ -748,7 +750,7 @@ func genCodec(o *Out, r *Rng, n int, tier string) {
 			continue
 		}
 		// (a) an alternative legal encoding of a message built from the specification
-		an := genMsgNode(r, ty, tier, r.Chance(30))
+		an := genMsgNode(r, ty, tier, r.Chance(45))
 		altHints(r, an, 25)
 		a := an.Enc()
 		var prev []byte
@@ -815,13 +817,19 @@ func genCodec(o *Out, r *Rng, n int, tier string) {
 				}
 				bad := nExt(0, r.Bytes(k))
 				bad.W = r.Intn(3)
+				// … half of the time followed by another complete message: a decoder that reads over the bad element
+				// runs into it
+				var follow []byte
+				if r.Bool() {
+					follow = v
+				}
 				switch r.Intn(3) {
 				case 0:
-					emitDec(o, r, "C10", "MessageExt", "m", nArr(nStr([]byte("t")), bad, nMap()).Enc(), prev)
+					emitDec(o, r, "C10", "MessageExt", "m", append(nArr(nStr([]byte("t")), bad, nMap()).Enc(), follow...), prev)
 				case 1:
-					emitDec(o, r, "C10", "EntryExt", "m", nArr(bad, nMap()).Enc(), nil)
+					emitDec(o, r, "C10", "EntryExt", "m", append(nArr(bad, nMap()).Enc(), follow...), nil)
 				default:
-					emitDec(o, r, "C10", "Forward", "m", nArr(nStr([]byte("t")), nArr(nArr(bad, nMap()))).Enc(), nil)
+					emitDec(o, r, "C10", "Forward", "m", append(nArr(nStr([]byte("t")), nArr(nArr(bad, nMap()))).Enc(), follow...), nil)
 				}
 				continue
 			}
